@@ -163,6 +163,7 @@ type Interp struct {
 	fallbacks      map[string]*Solver
 	prefers        []*Term
 	crcStreams     map[*Loc][]*Term
+	clockLast      *Term
 	randPre        []*Term // pre-allocated math/rand draws (nd.RandInts)
 	abstractArith  bool    // nd.AbstractArith(): see Solver.Abstract
 	absSolver      *Solver // lazily started abstract-arithmetic solver
@@ -214,6 +215,7 @@ func (in *Interp) resetPath(prefix []int) {
 	in.abstractArith = false
 	in.randPre = nil
 	in.crcStreams = nil
+	in.clockLast = nil
 }
 
 func (in *Interp) end(status, msg string) {
